@@ -33,10 +33,12 @@ const (
 	evReopenUnclean
 	evReopenClean
 	evQuery
+	evInvalidateTip // InvalidateBlock(active tip): a pure disconnect
+	evReconsider    // ReconsiderBlock(the block invalidated last)
 	nEvents
 )
 
-var evNames = []string{"A", "B", "FlushRequired", "FlushPeriodic", "FlushIfNeeded", "ReopenUnclean", "ReopenClean", "QueryAll"}
+var evNames = []string{"A", "B", "FlushRequired", "FlushPeriodic", "FlushIfNeeded", "ReopenUnclean", "ReopenClean", "QueryAll", "InvalidateTip", "Reconsider"}
 
 type world = lab.TwoBranch
 
@@ -49,7 +51,8 @@ type sys struct {
 	cache   uint64
 	err     string // first unexpected error
 	lastEv  int
-	flushed bool // last event was a required flush / clean reopen / reopen
+	flushed bool       // last event was a required flush / clean reopen / reopen
+	invalid []*lab.Blk // manually invalidated blocks (stack)
 }
 
 func newSys(w *world, cache uint64) *sys {
@@ -70,6 +73,14 @@ func (s *sys) enabled() []int {
 	}
 	if s.a >= s.w.ForkA && s.b < len(s.w.B) {
 		evs = append(evs, evB)
+	}
+	if len(s.invalid) > 0 {
+		// while a block is manually invalidated only flushes / queries / the
+		// reconsideration are explored (deliveries below it would be refused)
+		evs = nil
+		evs = append(evs, evReconsider)
+	} else if s.c.BC.BestSnapshot().Height > 0 {
+		evs = append(evs, evInvalidateTip)
 	}
 	evs = append(evs, evFlushReq, evFlushPer, evFlushIf, evReopenUnclean, evReopenClean, evQuery)
 	return evs
@@ -130,6 +141,19 @@ func (s *sys) apply(e int) {
 		// after an unclean stop the recovery replays blocks into the cache, so
 		// only a clean stop promises "persisted == in-memory".
 		s.flushed = e == evReopenClean
+	case evInvalidateTip:
+		best := s.c.BC.BestSnapshot()
+		blk := s.w.ByHash[best.Hash]
+		s.invalid = append(s.invalid, blk)
+		if err := s.c.BC.InvalidateBlock(&blk.Hash); err != nil {
+			s.fail("InvalidateBlock(%s): %v", blk.Name, err)
+		}
+	case evReconsider:
+		blk := s.invalid[len(s.invalid)-1]
+		s.invalid = s.invalid[:len(s.invalid)-1]
+		if err := s.c.BC.ReconsiderBlock(&blk.Hash); err != nil {
+			s.fail("ReconsiderBlock(%s): %v", blk.Name, err)
+		}
 	case evQuery:
 		for _, o := range s.w.Universe {
 			if _, err := s.c.BC.FetchUtxoEntry(o); err != nil {
@@ -155,7 +179,10 @@ func (s *sys) canon() string {
 	}
 	var sb strings.Builder
 	best := s.c.BC.BestSnapshot()
-	fmt.Fprintf(&sb, "a=%d b=%d tip=%s tot=%d|", s.a, s.b, s.w.ByHash[best.Hash].Name, best.TotalTxns)
+	fmt.Fprintf(&sb, "a=%d b=%d tip=%s tot=%d inv=%d|", s.a, s.b, s.w.ByHash[best.Hash].Name, best.TotalTxns, len(s.invalid))
+	for _, b := range s.invalid {
+		sb.WriteString(b.Name + ";")
+	}
 	cached := s.c.BC.VerifCachedUtxos()
 	keys := make([]string, 0, len(cached))
 	for o, u := range cached {
